@@ -33,7 +33,7 @@ func authzFunc(w *world.World) (*ssa.Function, error) {
 	if d.gate == nil {
 		return nil, fmt.Errorf("the dispatcher has no authorization call")
 	}
-	f := d.gate.Call.StaticCallee()
+	f := d.gateFn
 	if f == nil || f.Blocks == nil {
 		return nil, fmt.Errorf("authorization function has no body")
 	}
@@ -176,6 +176,7 @@ func ruleQ(w *world.World, r *report.RuleResult) {
 		return
 	}
 	fname := world.FuncName(az)
+	defer func() { derivParamBind = map[*ssa.Parameter][]ssa.Value{} }()
 	for _, res := range []string{"Channels", "ReadKeys", "WriteKeys"} {
 		isR := isResourceField(res)
 		key := fname + "|" + res
@@ -194,62 +195,164 @@ func ruleQ(w *world.World, r *report.RuleResult) {
 			}
 			return false
 		}
-		// whole collection passed to Contains/ContainsFunc
-		var bad []string
-		good := ""
-		for _, b := range az.Blocks {
-			iff := world.IfOf(b)
-			if iff == nil {
+		// helpers of the authorizer that receive the collection: analysed with their parameters bound
+		// to the call-site arguments; their verdict is their result, which the authorizer must test
+		type site struct {
+			fn   *ssa.Function
+			call *ssa.Call // nil for the authorizer itself
+		}
+		sites := []site{{az, nil}}
+		for _, c := range world.Calls(az) {
+			call, ok := c.(*ssa.Call)
+			if !ok {
 				continue
 			}
-			cond := iff.Cond
-			neg := false
-			if u, ok := cond.(*ssa.UnOp); ok && u.Op.String() == "!" {
-				cond, neg = u.X, true
+			h := call.Call.StaticCallee()
+			if h == nil || h.Blocks == nil || !world.InModule(h) || h == az || len(h.Params) != len(call.Call.Args) {
+				continue
 			}
-			// shape 1 (bad): error on the edge where ContainsFunc(R, p) is false
-			if c, ok := cond.(*ssa.Call); ok {
-				if f := c.Call.StaticCallee(); f != nil && (strings.HasPrefix(f.String(), "slices.ContainsFunc") || strings.HasPrefix(f.String(), "slices.Contains[")) && len(c.Call.Args) >= 1 {
-					whole := derivesFrom(c.Call.Args[0], isR, 0) && !withStop(func(v ssa.Value) bool { _, ok := v.(*ssa.IndexAddr); return ok }, func() bool { return derivesFrom(c.Call.Args[0], isElem, 0) })
-					if whole {
-						falseSucc := b.Succs[1]
-						if neg {
-							falseSucc = b.Succs[0]
-						}
-						if ret := isErrReturnBlockDominatedBy(az, falseSucc); ret != nil {
-							bad = append(bad, w.InstrPos(c))
-						}
+			takes := false
+			for _, a := range call.Call.Args {
+				if _, isFn := a.Type().Underlying().(*types.Signature); !isFn && derivesFrom(a, isR, 0) {
+					takes = true
+				}
+			}
+			if !takes {
+				continue
+			}
+			for i, p := range h.Params {
+				dup := false
+				for _, v := range derivParamBind[p] {
+					dup = dup || v == call.Call.Args[i]
+				}
+				if !dup {
+					derivParamBind[p] = append(derivParamBind[p], call.Call.Args[i])
+				}
+			}
+			sites = append(sites, site{h, call})
+		}
+		// denyAt: the region dominated by succ produces the deny verdict of fn: in the authorizer an
+		// error return; in a helper a return of a non-nil error, or an update of a value that flows
+		// into the helper's result, provided the authorizer turns that result into an error return.
+		resultTested := func(call *ssa.Call) *ssa.Return {
+			for _, b2 := range az.Blocks {
+				iff2 := world.IfOf(b2)
+				if iff2 == nil || !derivesFrom(iff2.Cond, func(v ssa.Value) bool { return v == ssa.Value(call) }, 0) {
+					continue
+				}
+				for _, s2 := range b2.Succs {
+					if ret := isErrReturnBlockDominatedBy(az, s2); ret != nil {
+						return ret
 					}
 				}
 			}
-			// shape 2 (good): condition derives from an element of R and controls an error return directly…
-			if derivesFrom(iff.Cond, isElem, 0) {
-				for _, s := range b.Succs {
-					if ret := isErrReturnBlockDominatedBy(az, s); ret != nil && !s.Dominates(b) {
-						good = "error return at " + w.InstrPos(ret) + " controlled by a per-element test"
+			// the helper's error returned as the authorizer's own
+			for _, ret := range world.Returns(az) {
+				rv := world.RetVals(ret)
+				if len(rv) > 0 && derivesFrom(rv[len(rv)-1], func(v ssa.Value) bool { return v == ssa.Value(call) }, 0) {
+					return ret
+				}
+			}
+			return nil
+		}
+		denyAt := func(st site, succ *ssa.BasicBlock, from *ssa.BasicBlock) string {
+			if st.call == nil {
+				if ret := isErrReturnBlockDominatedBy(az, succ); ret != nil && !succ.Dominates(from) {
+					return "error return at " + w.InstrPos(ret) + " controlled by a per-element test"
+				}
+				return ""
+			}
+			outer := resultTested(st.call)
+			if outer == nil {
+				return ""
+			}
+			inRegion := func(v ssa.Value) bool {
+				in, ok := v.(ssa.Instruction)
+				return ok && in.Block() != nil && in.Parent() == st.fn && succ.Dominates(in.Block()) && !succ.Dominates(from)
+			}
+			for _, ret := range world.Returns(st.fn) {
+				for _, v := range world.RetVals(ret) {
+					if world.IsNilConst(v) {
+						continue
 					}
-					// …or through an accumulator: a store to a local in a dominated block, later tested before an error return
-					for _, bb := range az.Blocks {
-						if !s.Dominates(bb) {
+					if succ.Dominates(ret.Block()) && !succ.Dominates(from) || derivesFrom(v, inRegion, 0) {
+						return "per-element test in helper " + world.FuncName(st.fn) + " decides its result, which controls the error return at " + w.InstrPos(outer)
+					}
+				}
+			}
+			return ""
+		}
+		var bad []string
+		good := ""
+		var bypass ssa.Instruction
+		for _, st := range sites {
+			fn := st.fn
+			siteGood := ""
+			for _, b := range fn.Blocks {
+				iff := world.IfOf(b)
+				if iff == nil {
+					continue
+				}
+				cond := iff.Cond
+				neg := false
+				if u, ok := cond.(*ssa.UnOp); ok && u.Op.String() == "!" {
+					cond, neg = u.X, true
+				}
+				// shape 1 (bad): deny verdict on the edge where ContainsFunc(R, p) is false
+				if c, ok := cond.(*ssa.Call); ok {
+					if f := c.Call.StaticCallee(); f != nil && (strings.HasPrefix(f.String(), "slices.ContainsFunc") || strings.HasPrefix(f.String(), "slices.Contains[")) && len(c.Call.Args) >= 1 {
+						whole := derivesFrom(c.Call.Args[0], isR, 0) && !withStop(func(v ssa.Value) bool { _, ok := v.(*ssa.IndexAddr); return ok }, func() bool { return derivesFrom(c.Call.Args[0], isElem, 0) })
+						// searching the collection for one of its own elements is not an authorization test
+						if whole && strings.HasPrefix(f.String(), "slices.Contains[") && len(c.Call.Args) >= 2 && derivesFrom(c.Call.Args[1], isElem, 0) {
+							whole = false
+						}
+						if whole {
+							falseSucc := b.Succs[1]
+							if neg {
+								falseSucc = b.Succs[0]
+							}
+							if st.call == nil {
+								if ret := isErrReturnBlockDominatedBy(az, falseSucc); ret != nil {
+									bad = append(bad, w.InstrPos(c))
+								}
+							} else if denyAt(st, falseSucc, b) != "" {
+								bad = append(bad, w.InstrPos(c))
+							}
+						}
+					}
+				}
+				// shape 2 (good): condition derives from an element of R and controls the deny verdict directly…
+				if derivesFrom(iff.Cond, isElem, 0) {
+					for _, s := range b.Succs {
+						if g := denyAt(st, s, b); g != "" {
+							siteGood = g
+						}
+						if st.call != nil {
 							continue
 						}
-						for _, in := range bb.Instrs {
-							st, ok := in.(*ssa.Store)
-							if !ok {
+						// …or through an accumulator: a store to a local in a dominated block, later tested before an error return
+						for _, bb := range az.Blocks {
+							if !s.Dominates(bb) {
 								continue
 							}
-							al, ok := st.Addr.(*ssa.Alloc)
-							if !ok {
-								continue
-							}
-							for _, b2 := range az.Blocks {
-								iff2 := world.IfOf(b2)
-								if iff2 == nil || !derivesFrom(iff2.Cond, func(v ssa.Value) bool { return v == ssa.Value(al) }, 0) {
+							for _, in := range bb.Instrs {
+								sto, ok := in.(*ssa.Store)
+								if !ok {
 									continue
 								}
-								for _, s2 := range b2.Succs {
-									if ret := isErrReturnBlockDominatedBy(az, s2); ret != nil {
-										good = "error return at " + w.InstrPos(ret) + " controlled by an accumulator filled by a per-element test"
+								al, ok := sto.Addr.(*ssa.Alloc)
+								if !ok {
+									continue
+								}
+								for _, b2 := range az.Blocks {
+									iff2 := world.IfOf(b2)
+									if iff2 == nil || !derivesFrom(iff2.Cond, func(v ssa.Value) bool { return v == ssa.Value(al) }, 0) {
+										continue
+									}
+									for _, s2 := range b2.Succs {
+										if ret := isErrReturnBlockDominatedBy(az, s2); ret != nil {
+											siteGood = "error return at " + w.InstrPos(ret) + " controlled by an accumulator filled by a per-element test"
+										}
 									}
 								}
 							}
@@ -257,12 +360,18 @@ func ruleQ(w *world.World, r *report.RuleResult) {
 					}
 				}
 			}
+			if siteGood != "" {
+				good = siteGood
+				// Q2: inside the loop over the collection, every path from loading an element back to the loop
+				// header passes the pattern test of that element (no iteration skips the check)
+				if where := elementCheckBypass(fn, isElem); where != nil && bypass == nil {
+					bypass = where
+				}
+			}
 		}
-		// Q2: inside the loop over the collection, every path from loading an element back to the loop
-		// header passes the pattern test of that element (no iteration skips the check)
 		if good != "" && len(bad) == 0 {
-			if where := elementCheckBypass(az, isElem); where != nil {
-				r.Fail(key+"|every-element-tested", w.InstrPos(where), fmt.Sprintf("in the loop over %s an iteration can return to the loop header without the element having been matched against the user's patterns (the check is skipped on some path, e.g. for elements already seen elsewhere): a resource named by the command escapes authorization", res))
+			if bypass != nil {
+				r.Fail(key+"|every-element-tested", w.InstrPos(bypass), fmt.Sprintf("in the loop over %s an iteration can return to the loop header without the element having been matched against the user's patterns (the check is skipped on some path, e.g. for elements already seen elsewhere): a resource named by the command escapes authorization", res))
 			} else {
 				r.OK(key+"|every-element-tested", w.Pos(az.Pos()), "every iteration over "+res+" matches its element against the user's patterns before the next iteration")
 			}
